@@ -415,7 +415,7 @@ class Replayer:
                 sig['separators'] = self.stream.sep_shape(spec[2])
             ctx.violation(sig, detail, replay={'kind': 'case', 'world': world,
                                                'case': case, 'opts': opts})
-        if world in ('tab_rfl9', 'tab_dfl') and not res['divergences']:
+        if world in ('tab_rfl9', 'tab_dfl'):
             self.group(case, res)
         if res['divergences'] and not res['violations']:
             ctx.divergence(f'{world}: {res["divergences"][0]} case={case}')
